@@ -186,3 +186,44 @@ def format_styles():
 
 
 KS_CELLS = ("0", "1", "1[0]", "2[7]", "M[12]", "4[123]", "M", "3")
+
+
+# ---------------------------------------------------------------------------
+# long streams: the same rules on inputs whose size, not shape, is the point
+# ---------------------------------------------------------------------------
+
+def long_streams(thorough=False):
+    """
+    (label, columns, stream) - model note tuples (beat, column, type, player, keysound).  Sizes sit around the
+    powers of two at which buffers, blocks and chunking strategies usually switch (2^10, 2^12; thorough: 2^14, 2^16).
+    """
+    from fractions import Fraction as F
+    from ..models import notes as M
+    out = []
+    sizes = [1023, 1024, 1025, 4095, 4096, 4097] + ([16384, 16385, 65536, 65537] if thorough else [])
+    for n in sizes:
+        # a hold that stays open while n notes pass in another column, then closes
+        s = [(F(0), 0, M.HOLD, 0, None)] + [(F(i, 48), 1, M.TAP, 0, None) for i in range(1, n + 1)] + [(F(n + 1, 48), 0, M.TAIL, 0, None)]
+        out.append((f"hold open over {n} taps", 2, s))
+        # ... and interrupted instead of closed (orphan head far behind)
+        s = [(F(0), 0, M.ROLL, 0, 5)] + [(F(i, 48), 1, M.TAP, 0, None) for i in range(1, n + 1)] + [(F(n + 1, 48), 0, M.MINE, 0, None), (F(n + 2, 48), 0, M.TAIL, 0, None)]
+        out.append((f"roll interrupted after {n} taps", 2, s))
+    for j in [2047, 2048, 2049] + ([8192, 32768] if thorough else []):
+        # one tap, then j two-note rows: row k occupies stream positions 2k-1, 2k (every row straddles an even index)
+        s = [(F(0), 0, M.TAP, 0, None)]
+        for k in range(1, j + 1):
+            s += [(F(k, 4), 0, M.TAP, 0, None), (F(k, 4), 1, M.MINE if k % 5 == 0 else M.TAP, 0, None)]
+        out.append((f"a tap and {j} two-note rows", 2, s))
+        # three-note rows from the start
+        s = []
+        for k in range(j * 2 // 3 + 2):
+            s += [(F(k, 4), c, M.TAP, 0, None) for c in range(3)]
+        out.append((f"{j * 2 // 3 + 2} three-note rows", 3, s))
+    # many short holds one after the other in every column, with keysounds of growing width
+    s = []
+    for k in range(1500):
+        c = k % 4
+        s.append((F(k, 2), c, M.HOLD if k % 3 else M.ROLL, 0, k if k % 7 == 0 else None))
+        s.append((F(k, 2) + F(1, 4), c, M.TAIL, 0, None))
+    out.append(("1500 short holds", 4, s))
+    return out
